@@ -154,7 +154,7 @@ type checker struct {
 	sigCount     map[string]int
 	invalidOK    int
 	llvmAccepted int
-	viaAPI       int // cases whose value went through constant.NewFloat
+	viaAPI       int            // cases whose value went through constant.NewFloat
 	atPosition   map[string]int // Positions: cases per place
 	posAsScalar  int            // failing rows of a place whose printed literal is the scalar path's (reported there)
 }
